@@ -426,3 +426,18 @@ func hammer(c *core.Case, G, n int, step func(r *core.Rng, sc *core.Case)) bool 
 	}
 	return !c.Failed()
 }
+
+// truncAliasPair draws (P, c): P has vertical index 0, c has P's footprint (or lies inside it) at a finer vertical zoom
+// with a negative index in (-2^d, 0). c is NOT inside P (floor(c.F / 2^d) = -1), but an index lowered with a division
+// that truncates toward zero gives 0: containment tests written with "/" instead of a floor confuse the two.
+func truncAliasPair(r *core.Rng) (P, c ref.ID) {
+	P = genID(r, 0, 33, 0, 32)
+	P.F = 0
+	d := r.Range(1, 3)
+	dh := r.Range(0, 2)
+	if r.Bool() {
+		dh = 0
+	}
+	c = ref.ID{H: P.H + dh, X: P.X<<uint(dh) + r.I64n(pow2(dh)), Y: P.Y<<uint(dh) + r.I64n(pow2(dh)), V: P.V + d, F: -r.Range(1, pow2(d)-1)}
+	return
+}
